@@ -27,14 +27,6 @@ Definition failing := failing_ids agree ident.
    global generator) is made HERE by [pgf], proved sound w.r.t. the semantics [prun] (Props C16_source_analysis):
    [must] = no draw reaches the global generator when random_state is an int or a generator object; and the
    extracted skeleton may not be draw-free when the hand-written skeletons of that entry point draw. *)
-(* a fixed grid of option values (every initialisation x SVD method x mask / indices_list flag x rank below / above the mode
-   sizes): the hand-written skeleton of an entry point is evaluated on ALL of them, independently of which configurations the
-   dynamic correspondence happens to exercise *)
-Definition opt_grid : list opts :=
-  flat_map (fun ini => flat_map (fun sv => flat_map (fun mk => map (fun rk =>
-    {| o_shape := [4; 3; 5]; o_rank := rk; o_init := ini; o_svd := sv; o_mask := mk; o_nrep := 2; o_iters := 2; o_aux := 3 |})
-    [2; 6]) [false; true]) [STruncated; SSymeig; SRandomized]) [IRandom; ISvd; IUser].
-
 Definition scase := (nat * bool * pskel * list skel * option ep)%type.
 Definition agree_static (c : scase) : bool :=
   let '(_, must, sk, models, oe) := c in
@@ -61,3 +53,10 @@ Definition failing_static := failing_ids agree_static ident_static.
 Definition rcase := (nat * pskel)%type.
 Definition agree_rngfree (c : rcase) : bool := pdraw_free (snd c).
 Definition failing_rngfree := failing_ids agree_rngfree (fun c : rcase => fst c).
+
+(* STATIC correspondence for check_random_state ITSELF: its if / elif chain, re-read from the source on every run and written
+   as a decision table, must be one that [crs_table_ok] accepts (Props C16_check_random_state_table: the table-driven
+   function then IS the model's check_random_state).  An untranslatable construct yields TUnknown / AUnknown: not accepted. *)
+Definition tcase := (nat * list (crs_test * crs_action) * crs_action)%type.
+Definition agree_table (c : tcase) : bool := let '(_, tbl, dflt) := c in crs_table_ok tbl dflt.
+Definition failing_table := failing_ids agree_table (fun c : tcase => fst (fst c)).
